@@ -527,7 +527,16 @@ def one(prog, rep, cls, comb):
         if isinstance(st, ast.Expr) and isinstance(st.value, ast.Call) and isinstance(st.value.func, ast.Attribute) and st.value.func.attr == "append" \
                 and isinstance(st.value.func.value, ast.Name) and st.value.func.value.id in inl:
             inl[st.value.func.value.id].append((scF.term(st.value.args[0], st), st))
-    okv = [a for a, _ in inl[nx]] == [V(0)] and [a for a, _ in inl[ny]] == [V(1)]
+    # component k of the (2, 1) vector: vector[k] (a one-element array) or vector[k, 0] (the number itself)
+    comp = lambda k: (V(k), ("sub", ("col", Lc(vname), ("const", 0)), ("const", k)))
+    unwrap = lambda t_: t_[2][0] if t_[0] == "call" and t_[1] in (G("float"), G("numpy.float64")) and len(t_[2]) == 1 and not t_[3] else t_
+    okv = len(inl[nx]) == 1 and len(inl[ny]) == 1 and unwrap(inl[nx][0][0]) in comp(0) and unwrap(inl[ny][0][0]) in comp(1)
+    # the points must end up in a numeric array: one-element arrays mixed with the ints of the closing points only fit into an object
+    # array, which cannot be plotted (plot_2D_contour raises) and is saved only through a deprecated conversion
+    obj = [n_ for n_ in ast.walk(fn.node) if isinstance(n_, ast.Call) and any(k_.arg == "dtype" and isinstance(k_.value, ast.Name) and k_.value.id == "object" for k_ in n_.keywords)]
+    rep.check(not obj, "C04.close", f"{q}:numeric", fn.where(obj[0]) if obj else fn.where(), "the coordinates are a numeric array",
+              "the contour points are collected in an array of dtype=object (one-element arrays and ints mixed): plot_2D_contour(contour) raises ValueError "
+              "'inhomogeneous shape' and np.isfinite(contour.coordinates) TypeError; append the numbers (vector[k, 0]) and build a float array")
     rep.check(okv, "C04.filter", f"{q}:unmodified", fn.where(inl[nx][0][1]) if inl[nx] else fn.where(), "appended values are the vector's components, unmodified",
               f"a kept point must be appended unmodified (x <- component 0, y <- component 1); found {[show(a)[:50] for a, _ in inl[nx] + inl[ny]]}")
     okf = False
